@@ -107,7 +107,7 @@ func devMain(args []string) {
 		nf++
 		fmt.Printf("  FAIL %-60s %s %s %.2fs  %s:%d  %s\n", o.Name, o.Result.Verdict, o.Result.Backend, o.Result.Secs, o.Pos.Filename, o.Pos.Line, o.Desc)
 		if o.Result.Verdict == Unknown && o.Result.Output != "" {
-			fmt.Println("       ", strings.ReplaceAll(o.Result.Output, "\n", "\n        "))
+			fmt.Println("       ", truncate(strings.ReplaceAll(o.Result.Output, "\n", " || "), 300))
 		}
 	}
 	fmt.Printf("discharged %d/%d in %.1fs\n", np, np+nf, time.Since(t2).Seconds())
